@@ -6,7 +6,8 @@
      n_splines += spline_order * periodic                                                    [n']
      boundary_knots = linspace(0,1,1+n'-k); diff = 1/(n'-k); aug knots j -> (j-k)*diff,
        j = 0..n'+k, the LAST one + 1e-9                                                       [knot]
-     x = (x-offset)/scale;  periodic: x = x % (1+1e-9)   (float modulo: sign of the divisor)   [fmod]
+     x = (x-offset)/scale;  periodic: x = np.minimum(x % (1+1e-9), 1.0)                       [fmod, tmin]
+       (float modulo: sign of the divisor; the clip to 1 is the repair of S10, /repo commit f738620)
      rows for x, and for the two appended points 0 and 1
      Haar basis (x >= t_i)*(x < t_{i+1}); the row of the appended 1 is FORCED to be the
        mirror image of the row of the appended 0                                              [haar_row, rev]
@@ -14,7 +15,7 @@
      periodic and k>0: first k columns := max(first k, last k); drop last k                   [pfold]
      k>0 and x<0 or x>1: row := grads_0 * x + bases(0)   resp.  grads_1 * (x-1) + bases(1),
        grads from the order k-1 bases at the appended 0 / 1; numpy broadcasting fails when the
-       widths differ (periodic, k>0: n'+... vs n columns) -> ValueError -> None               [grads, bspline_scaled]
+       widths differ -> ValueError -> None (unreachable since the wrapped x is clipped to [0,1]) [grads, bspline_scaled]
    The constants 1e-9 are the exact rationals 1/10^9 (binary64 1e-9 differs by < 1e-25).
    np.linspace is modelled as i*step with step = 1/(n'-k) (exact), see the tolerance in harness/props/c03.py. *)
 From Coq Require Import List ZArith Bool Arith.
@@ -98,12 +99,12 @@ Definition scaled_x (ek0 ek1 x : T) : T :=
   let sc' := if leb sc 0 && leb 0 sc then 1 else sc in
   (x - lo) / sc'.
 
-(* None = the code raises (ValueError) *)
+(* None = the code raises (ValueError): n_splines < spline_order + 1 *)
 Definition bspline_scaled (n k : nat) (periodic : bool) (xs0 : T) : option (list T) :=
   if Nat.ltb n (S k) then None else
   let n' := if periodic then Nat.add n k else n in
   let t := knot n' k in
-  let xs := if periodic then fmod xs0 (1 + eps9) else xs0 in
+  let xs := if periodic then tmin (fmod xs0 (1 + eps9)) 1 else xs0 in
   let m := Nat.add n' k in
   let h0 := haar_row t m 0 in
   let h1 := rev h0 in
